@@ -83,6 +83,14 @@ def run(tier, seed):
            "kernels": len(klist), "judged": len(judged), "not_applicable": na, "base_run_faults": inconclusive,
            "exhaustive": False,
            "binding": "the IR is the working tree's compiler output; counters are the machine's (native time is not measured)"}
+    from .. import structure_conf
+
+    sv, sr, sn = structure_conf.check_sparse(tier)
+    vio += sv
+    cov["states"] += sr.distinct
+    cov["transitions"] += sr.generated
+    cov["is_sparse_expressions_compared"] = sn
+    cov["traces_validated_against_impl"] += sn
     return {"violations": vio, "coverage": cov, "assumptions": _pipe.ASSUMPTIONS}
 
 
